@@ -649,9 +649,13 @@ def wl_generic(rng, rec, tier):
     contract = gen.choice(rng, modes)
     kw = {}
     r = rng.random()
-    if r < 0.25:
+    if r < 0.2:
         kw["dagger"] = True
+    elif r < 0.4:
+        kw["transpose"] = True
     elif r < 0.5:
+        # documented: transpose is implied by dagger, giving both still means G^dagger
+        kw["dagger"] = True
         kw["transpose"] = True
     if rng.random() < 0.3:
         kw["tags"] = ["G"]
@@ -725,6 +729,9 @@ def wl_sites(rng, rec, tier):
         kw["dagger"] = True
     elif r < 0.4:
         kw["transpose"] = True
+    elif r < 0.5:
+        kw["dagger"] = True
+        kw["transpose"] = True
     kw["propagate_tags"] = gen.choice(rng, [False, True, "register", "sites"])
     if rng.random() < 0.3:
         kw["tags"] = ["GATE"]
@@ -761,7 +768,7 @@ def wl_mps_modes(rng, rec, tier):
     psi = qtn.MPS_rand_state(L, int(rng.integers(1, 4)), phys_dim=phys, dtype=dtype,
                              seed=int(rng.integers(1 << 30)))
     op = gen.choice(rng, ["gate_split", "auto_swap", "nonlocal", "submpo", "mpo",
-                          "swap_sites", "swap_site_to"])
+                          "swap_sites", "swap_site_to", "lazy_twice"])
     desc = {"L": L, "phys": phys, "op": op}
     i, j = [int(x) for x in rng.choice(L, size=2, replace=False)]
     inplace = bool(rng.random() < 0.4)
@@ -795,6 +802,27 @@ def wl_mps_modes(rng, rec, tier):
         A = qtn.MPO_rand(L, 2, phys_dim=phys, dtype=dtype, seed=int(rng.integers(1 << 30)))
         gen.attempt(t.gate_with_mpo, A, inplace=inplace, transpose=bool(rng.random() < 0.3),
                     method=gen.choice(rng, ["direct", "dm", "zipup"]), cutoff=0.0)
+    elif op == "lazy_twice":
+        # the same operator object (or its copy / conjugate / a view of it)
+        # applied lazily several times: its bond names recur inside the state
+        k = int(rng.integers(2, min(L, 4) + 1)) if L >= 2 else 1
+        sites = sorted(int(x) for x in rng.choice(L, size=k, replace=False))
+        A0 = qtn.MPO_rand(k, 2, phys_dim=phys, dtype=dtype, seed=int(rng.integers(1 << 30)))
+        A = qtn.MatrixProductOperator(A0.arrays, sites=sites, L=L) if k > 1 else None
+        if A is None:
+            return desc
+        cur = t
+        for rep in range(int(rng.integers(2, 4))):
+            B = gen.choice(rng, [A, A.copy(), A.conj(), A])
+            how = gen.choice(rng, ["op_lazy", "submpo_lazy"])
+            if how == "op_lazy":
+                r_ = gen.attempt(cur.gate_with_op_lazy, B, transpose=bool(rng.random() < 0.3))
+            else:
+                r_ = gen.attempt(cur.gate_with_submpo, B, method="lazy", transpose=bool(rng.random() < 0.3))
+            if r_ is None:
+                break
+            cur = r_
+        desc["sites"] = sites
     elif op == "swap_sites":
         a = int(rng.integers(0, L - 1))
         gen.attempt(t.swap_sites_with_compress, a, a + 1, inplace=inplace,
@@ -821,9 +849,13 @@ def wl_operator(rng, rec, tier):
     G = rand_gate(rng, [phys] * k)
     kw = {}
     r = rng.random()
-    if r < 0.25:
+    if r < 0.2:
         kw["dagger"] = True
+    elif r < 0.4:
+        kw["transpose"] = True
     elif r < 0.5:
+        # documented: transpose is implied by dagger, giving both still means G^dagger
+        kw["dagger"] = True
         kw["transpose"] = True
     contract = gen.choice(rng, [False, True] + (["split", "reduce-split"] if k == 2 and abs(where[0] - where[-1]) == 1 else []))
     tn = A.view_as(__import__("quimb.tensor.tnag.core", fromlist=["x"]).TensorNetworkGenOperator,
